@@ -201,8 +201,49 @@ class Gen:
         elif x < 0.85 and k == 'rng' and o.get('small'): self.op(f'mem {i} i{r.randrange(-3, 12)}')
         else: self.op(r.choice([f'set {i} i0 i0', f'rem {i} i0', f'push {i} i0', f'pop {i}', f'resize {i} 2', f'assign {i} i3', f'assign {i} N', f'concat {i} i1', f'print {i} 0 Lz |']))
 
+    # ---- containers whose elements are containers (Array / List of Array / List / Table of Int)
+    def cval(self):
+        r = self.r
+        return 'c' + '.'.join(str(r.randrange(0, 9)) for _ in range(r.randrange(0, 5)))
+    def new_nest(self, outer=None, ek=None):
+        r = self.r
+        outer = outer or r.choice(['narr', 'nlst']); ek = ek or r.choice(['arr', 'lst', 'tab'])
+        return self.new(outer, ek, *[self.cval() for _ in range(r.randrange(0, 5))], outer=outer, ek=ek)
+    def nest_op(self, i):
+        """valid operations (container sources) and the invalid ones that are atomic: every bad / wrong-typed / NULL index, empty pop,
+        and a source that is not a container pushed onto a *List* (the node is linked only after its assign succeeded).  A bad source
+        for `set`, or pushed onto an Array, is the territory of the assign-clears / foreach / F15 findings: corpus witnesses only."""
+        r = self.r; o = self.objs[i]; lst = o['outer'] == 'nlst'
+        far = lambda: f'i{r.choice([50, -50, 1000, I64MAX, I64MIN, 2**62, -2**62])}'
+        x = r.random()
+        if x < 0.20: self.op(f'get {i} {self.index()}')
+        elif x < 0.40: self.op(f'set {i} {self.index()} {self.cval()}')
+        elif x < 0.46: self.op(f'set {i} {r.choice([far(), "sab", "p1", "N"])} {r.choice(["i5", "p1", "N", self.cval()])}')   # the index is refused first
+        elif x < 0.58: self.op(f'{r.choice(["push", "append"])} {i} {self.cval()}')
+        elif x < 0.70: self.op(f'pushat {i} {self.cval()} {self.index()}')
+        elif x < 0.74: self.op(f'pushat {i} {r.choice(["i5", "p1", "N", self.cval()])} {r.choice([far(), "sab", "N"])}')     # the position is refused first
+        elif x < 0.82 and lst:
+            # List: a source that is not a container is refused with the list unchanged (`Array_Assign` from an Int would crash: NULL only there)
+            src = 'N' if o['ek'] == 'arr' else r.choice(['i5', 'p1', 'N', 'i0'])
+            if r.random() < 0.5: self.op(f'{r.choice(["push", "append"])} {i} {src}')
+            else: self.op(f'pushat {i} {src} {self.index()}')
+        elif x < 0.88: self.op(f'pop {i}')
+        elif x < 0.94: self.op(f'popat {i} {self.index()}')
+        elif x < 0.96: self.op(f'len {i}')
+        elif x < 0.98: self.op(f'resize {i} {r.randrange(0, 3)}')
+        else: self.op(r.choice([f'typeof {i}', f'cast {i} Array', f'cast {i} List', f'cast {i} Table']))
+
+    def junk_op(self, i):
+        """every entry point on a pointer whose header has the freed-object / a foreign magic number: Type_Of refuses it"""
+        r = self.r
+        self.op(r.choice([f'get {i} i0', f'set {i} i0 i1', f'mem {i} i1', f'rem {i} sx', f'push {i} i1', f'pushat {i} i1 i0', f'pop {i}', f'popat {i} i-1',
+                          f'resize {i} 3', f'len {i}', f'append {i} sab', f'assign {i} i1', f'assign {i} N', f'concat {i} i1', f'typeof {i}', f'cast {i} Int',
+                          f'cast {i} Table', f'dealloc {i}', f'get {i} N', f'len {i}']))
+
     def misc_op(self, i):
         r = self.r; o = self.objs[i]; k = o['kind']
+        if k == 'junk': return self.junk_op(i)
+        if k in ('narr', 'nlst'): return self.nest_op(i)
         x = r.random()
         if x < 0.2: self.op(f'cast {i} {r.choice(TYPES)}')
         elif x < 0.3: self.op(f'typeof {i}')
@@ -259,6 +300,11 @@ def history(rng, family, nops, max_len=8):
         for _ in range(r.randrange(3, 6)): g.new_str()
         g.new_str('heap'); g.new_str('stack'); g.new_str('static')
         pick = lambda: g.str_op(r.choice(g.ids('str')))
+    elif family == 'nest':
+        for outer in ('narr', 'nlst'):
+            for ek in ('arr', 'lst', 'tab'): g.new_nest(outer, ek)
+        for _ in range(r.randrange(2, 6)): g.new_nest()
+        pick = lambda: g.nest_op(r.choice(g.ids('narr', 'nlst')))
     elif family == 'view':
         bases = [g.new_seq(r.choice(['arr', 'lst', 'tup']), 'int', 'heap') for _ in range(4)]
         for _ in range(9):
@@ -277,14 +323,15 @@ def history(rng, family, nops, max_len=8):
         g.new('rng', 0, 5, 1, start=0, stop=5, step=1, small=True)
         for al in ('heap', 'stack', 'static'):
             g.new('val', al, f'i{r.randrange(9)}', alloc=al); g.new('val', al, f'p{r.randrange(4)}', alloc=al)
+        g.new('junk', 'dead'); g.new('junk', 'bad'); g.new_nest('narr', 'lst'); g.new_nest('nlst', 'tab')
         def pick():
             if r.random() < 0.25: g.null_op()
             else: g.misc_op(r.choice(list(g.objs)))
     for _ in range(nops):
         pick()
         # replace exhausted objects now and then so that histories restart from fresh states
-        if family in ('seq', 'map', 'str') and r.random() < 0.01 and g.next_id < 60:
-            (g.new_seq if family == 'seq' else g.new_map if family == 'map' else g.new_str)()
+        if family in ('seq', 'map', 'str', 'nest') and r.random() < 0.01 and g.next_id < 60:
+            (g.new_seq if family == 'seq' else g.new_map if family == 'map' else g.new_str if family == 'str' else g.new_nest)()
     return g.lines
 
 
@@ -347,7 +394,7 @@ def range_sweep():
 
 class C12(Spec):
     id = 'C12'; engine = 'fail'; harness = 'h_fail'; driver = 'drv_fail'
-    generators = ()
+    generators = ('Fail', 'Disp')      # CelloGen.Fail: check / mutation order profile of the mirrored functions; CelloGen.Disp: declaration matrix
     harness_timeout = 600
     # NULL + 0 in Table_Get on a table without slots (`(char*)t->data + t->nslots * step`, data == NULL, nslots == 0) is flagged by
     # UBSan's pointer-overflow check in C mode although no platform misbehaves on it: that one check is switched off (reported).
@@ -406,8 +453,8 @@ class C12(Spec):
     def cases(self, rng, tier, boost=1):
         quick = tier == 'quick'
         cs = []
-        plan = [('seq', 7, 260), ('map', 4, 220), ('str', 4, 220), ('view', 5, 220), ('misc', 2, 200)] if quick else \
-               [('seq', 180, 900), ('map', 90, 900), ('str', 90, 900), ('view', 72, 700), ('misc', 36, 600)]
+        plan = [('seq', 7, 260), ('map', 4, 220), ('str', 4, 220), ('view', 5, 220), ('nest', 4, 220), ('misc', 3, 200)] if quick else \
+               [('seq', 180, 900), ('map', 90, 900), ('str', 90, 900), ('view', 72, 700), ('nest', 72, 700), ('misc', 45, 600)]
         for fam, ncases, nops in plan:
             for k in range(ncases * boost):
                 ml = 8 if k % 3 else (3 if k % 2 else 20)
